@@ -332,6 +332,23 @@ def _raw_wsgi(a: Dict[str, Any], built: Built) -> Any:
 
         return gen()
 
+    if returns == "restart":
+        # PEP 3333 error pattern: a first start_response, a failure before any body, then a second
+        # start_response with exc_info that replaces status and headers
+        first_headers = [tuple(h) for h in a.get("first_headers", [["Set-Cookie", "stale=1"], ["X-First", "1"]])]
+
+        def app3(environ: Any, start_response: Any) -> Any:
+            built.calls.append(("raw", a.get("label")))
+            start_response("200 OK", first_headers)
+            try:
+                raise ProducerError("failure before the first body chunk")
+            except ProducerError:
+                import sys
+
+                start_response(status, headers, sys.exc_info())
+            return list(chunks)
+
+        return app3
     if returns == "generator-late-start":
 
         def app2(environ: Any, start_response: Any) -> Any:
@@ -363,7 +380,10 @@ def _raw_asgi(a: Dict[str, Any], built: Built) -> Any:
         for i, c in enumerate(chunks):
             if raises == "mid" and i == max(1, len(chunks) // 2):
                 raise ProducerError("raw app failed mid-body")
-            await send({"type": "http.response.body", "body": c, "more_body": i < len(chunks) - 1})
+            msg = {"type": "http.response.body", "body": c, "more_body": i < len(chunks) - 1}
+            if a.get("returns") in ("restart", "tuple") and i == len(chunks) - 1:
+                del msg["more_body"]  # optional key, defaults to False
+            await send(msg)
 
     return app
 
